@@ -42,6 +42,7 @@ def parseOp (s : String) : Option Hist.Op :=
   | "hj" => some (.handlerFails .joinEof)
   | "hs" => some (.handlerFails .wrapStream)
   | "hz" => some (.handlerFails .wrapStanza)
+  | "hb" => some (.handlerFails .wrapStream)   -- a stream error too large for the encoder's buffer
   | "e" => some .peerStreamErr
   | "p" => some .peerClose
   | "g" => some .peerGarbage
